@@ -449,6 +449,44 @@ def rule_r2(prog, res, tier):
                             'self.%s (%s) without a lock; reached via %s' % (
                                 cls.name, f.name, attr, kind,
                                 cg.path_to(seen, f)[:240]))
+    # writes that reach a shared object through another receiver
+    # (ctx.app.x = ..., ctx.descriptor.x[...] = ..., cls.Attributes.x = ...
+    # in a model classmethod, self.app.interface.cache.update(...))
+    from ..ownership import mutation_sites, chain
+    SHARED_LINKS = ('app', 'interface', 'in_protocol', 'out_protocol',
+                    'descriptor', 'Attributes', 'service_class',
+                    'event_manager', 'docs', 'wsdl11', 'xml_schema')
+    for f in sorted(seen, key=lambda x: (x.module.relpath, x.node.lineno)):
+        if stop(f):
+            continue
+        for st in mutation_sites(f.node):
+            root, path = chain(st.base)
+            if root is None:
+                continue
+            links = [p_ for p_ in path if p_ in SHARED_LINKS]
+            is_cls_write = root == 'cls' and f.params()[:1] == ['cls'] and \
+                shared_class(prog, cg.static_class(f), roots,
+                             model_root) == 'ModelBase'
+            if not links and not is_cls_write:
+                continue
+            if root == 'self' and not links:
+                continue
+            n_writes += 1
+            where = '%s:%d' % (f.module.relpath, st.node.lineno)
+            locked = any(st.node in r[1] for r in lock_regions(f.node))
+            inst = '%s writes %s (%s)' % (f.qualname, st.what[:50], st.kind)
+            if locked:
+                res.ob('R2', where, inst + ' [under a lock]', 'ok')
+                continue
+            res.ob('R2', where, inst, 'VIOLATED')
+            res.finding('R2', '%s|%s|%s' % (f.qualname, st.kind.split(':')[0],
+                                            unparse(st.base)[:40]), where,
+                        'request-path function %s writes %s, an object shared '
+                        'by all requests (reached through %s), without a '
+                        'lock; path: %s' % (
+                            f.qualname, st.what[:60],
+                            '.'.join([root] + links) if links else 'the model '
+                            'class', cg.path_to(seen, f)[:200]))
     res.count('shared_writes_examined', n_writes)
     res.floor('R2', 'request-path functions', len(seen), 150)
     res.floor('R2', 'shared writes examined', n_writes, 3)
@@ -622,6 +660,19 @@ MUTANTS = [
                    "        p_ctx.active = True\n",
                    "        p_ctx.active = True\n"
                    "        self.current_ctx = p_ctx\n"), 'current_ctx'),
+    Mutant('per-request-state-on-descriptor', 'R2', 'fire',
+           'spyne/application.py',
+           in_func('Application.process_request',
+                   "            ctx.fire_event('method_call')\n",
+                   "            ctx.fire_event('method_call')\n"
+                   "            ctx.descriptor.last_ctx = ctx\n"), 'ctx.descriptor'),
+    Mutant('per-request-state-on-interface', 'R2', 'fire',
+           'spyne/protocol/_base.py',
+           in_func('ProtocolMixin.get_call_handles',
+                   "        name = ctx.method_request_string\n",
+                   "        name = ctx.method_request_string\n"
+                   "        self.app.interface.method_id_map['_last'] = name\n"
+                   ), 'method_id_map'),
     Mutant('memo-unlocked', 'R2', 'fire', _M,
            in_func('memoize.__call__',
                    r"            with self\.lock:\n(.*?)return value",
